@@ -154,22 +154,45 @@ def reset_caches():
         f.cache_clear()
 
 
-def entered_functions(fn):
-    """Run fn() under sys.setprofile and return (result, sorted list of phyclone functions entered)."""
-    seen = set()
+class FuncTrace:
+    """Records which phyclone functions are entered.  sys.setprofile slows execution several-fold, so during path
+    exploration only the first few paths are traced (CTX.explore calls pause() after TRACED_PATHS paths)."""
+    TRACED_PATHS = 3
 
-    def prof(frame, event, arg):
+    def __init__(self):
+        self.seen = set()
+        self.active = False
+        self.old = None
+
+    def _prof(self, frame, event, arg):
         if event == "call":
             co = frame.f_code
             fnm = co.co_filename
             if "/phyclone/" in fnm and "/tests/" not in fnm:
                 mod = fnm.split("/phyclone/", 1)[1][:-3].replace("/", ".")
-                seen.add(f"phyclone.{mod}:{co.co_qualname if hasattr(co, 'co_qualname') else co.co_name}")
+                self.seen.add(f"phyclone.{mod}:{getattr(co, 'co_qualname', co.co_name)}")
 
-    old = sys.getprofile()
-    sys.setprofile(prof)
+    def resume(self):
+        if not self.active:
+            self.old = sys.getprofile()
+            sys.setprofile(self._prof)
+            self.active = True
+
+    def pause(self):
+        if self.active:
+            sys.setprofile(self.old)
+            self.active = False
+
+
+TRACE = FuncTrace()
+
+
+def entered_functions(fn):
+    """Run fn() and return (result, sorted list of phyclone functions entered while tracing was on)."""
+    TRACE.seen = set()
+    TRACE.resume()
     try:
         r = fn()
     finally:
-        sys.setprofile(old)
-    return r, sorted(seen)
+        TRACE.pause()
+    return r, sorted(TRACE.seen)
